@@ -276,7 +276,15 @@ func c03Child(args []string) int {
 // regex generator (RE2 syntax) with the words of the file as raw material.
 func genRegex(rng *rand.Rand, words []string) string {
 	w := func() string { return regexp.QuoteMeta(words[rng.Intn(len(words))]) }
-	switch rng.Intn(16) {
+	switch rng.Intn(20) {
+	case 16:
+		return w() + "  " + w() // a run of blanks is part of the pattern
+	case 17:
+		return " " + w()
+	case 18:
+		return w() + " $"
+	case 19:
+		return w() + "\t" + w() // a literal tab
 	case 0:
 		return w()
 	case 1:
@@ -328,7 +336,13 @@ func genGrepFile(rng *rand.Rand, n int) ([]string, []string) {
 		for j := 0; j < k; j++ {
 			parts = append(parts, words[rng.Intn(len(words))])
 		}
-		switch rng.Intn(12) {
+		switch rng.Intn(15) {
+		case 12:
+			lines[i] = strings.Join(parts, "  ") // words separated by two blanks
+		case 13:
+			lines[i] = " " + strings.Join(parts, "\t")
+		case 14:
+			lines[i] = strings.Join(parts, " ") + "  x"
 		case 0:
 			lines[i] = "" // empty line
 		case 1:
